@@ -14,7 +14,7 @@ from sim import netgen, prng, seams
 from sim import threads as simthreads
 from sim.trace import EventLog, canon, ddmin
 
-CASE_TIMEOUT = 300
+CASE_TIMEOUT = 900
 LEVEL = {"C16": "exploration"}
 PLAN = {"C16": {
     "quick": {"runs": 1100, "wall_cap": 115, "chunk": 8, "selftest": 6},
